@@ -87,10 +87,28 @@ Qed.
 
 (* ---------- Update of one entry, metadata only (replace = false) *)
 Definition meta_hdr (h0 : hdr) : hdr :=
-  with_size_name (set_pax h0 (pax_set K_replaces_content V_false (upd_pax (h_pax h0)))) 0 (h_name h0).
+  with_size_name (set_pax h0 (pax_set K_replaces_content V_false (keep_size (set_pax h0 (upd_pax (h_pax h0)))))) 0 (h_name h0).
 
-Lemma meta_hdr_usize h0 : pax_get K_usize (h_pax (meta_hdr h0)) = pax_get K_usize (h_pax h0).
-Proof. unfold meta_hdr, upd_pax. cbn [h_pax with_size_name set_pax]. paxs. reflexivity. Qed.
+(* the size record of a metadata-only record: the one of the entry, else the one added from a positive known size *)
+Lemma meta_hdr_usize h0 : pax_get K_usize (h_pax (meta_hdr h0)) =
+  match pax_get K_usize (h_pax h0) with
+  | Some v => Some v
+  | None => if 0 <? h_size h0 then Some (decimal (h_size h0)) else None
+  end.
+Proof.
+  unfold meta_hdr. cbn [h_pax with_size_name set_pax]. paxs. unfold keep_size. cbn [h_pax h_size set_pax].
+  assert (E : pax_get K_usize (upd_pax (h_pax h0)) = pax_get K_usize (h_pax h0)) by (unfold upd_pax; paxs; reflexivity).
+  rewrite E. destruct (pax_get K_usize (h_pax h0)) as [v|] eqn:G.
+  - destruct (0 <? h_size h0); exact E.
+  - destruct (0 <? h_size h0); [paxs; reflexivity|exact E].
+Qed.
+
+Lemma meta_hdr_get k h0 : eqb_str k K_usize = false -> eqb_str k K_replaces_content = false ->
+  pax_get k (h_pax (meta_hdr h0)) = pax_get k (upd_pax (h_pax h0)).
+Proof.
+  intros E1 E2. unfold meta_hdr. cbn [h_pax with_size_name set_pax]. rewrite pax_get_set, E2.
+  rewrite keep_size_get by exact E1. reflexivity.
+Qed.
 
 Lemma update_meta_exact s h0 d sz : Inv hr c s -> hbok s ->
   good (h_name h0) -> h_link h0 = [] -> usize_ok (h_pax h0) ->
@@ -103,17 +121,18 @@ Proof.
   set (h1 := set_pax h0 (pax_del K_replaces_name (pax_set K_action V_update (pax_set K_version V_1 (h_pax h0))))).
   replace (is_reg h1 && false && ((0 <? h_size h1) || false)) with false by (destruct (is_reg h1); reflexivity).
   cbn iota.
-  change (with_size_name (set_pax h1 (pax_set K_replaces_content V_false (h_pax h1))) 0 (h_name h1)) with (meta_hdr h0).
+  change (with_size_name (set_pax h1 (pax_set K_replaces_content V_false (keep_size h1))) 0 (h_name h1)) with (meta_hdr h0).
   destruct (mk_member_spec s (meta_hdr h0) None 0 Hhb) as (A & B & C & D & E).
   destruct (mk_member s (meta_hdr h0) None 0) as [m s1]. cbn [fst snd] in *.
   assert (HI1 : Inv hr c s1) by (eapply Inv_ext; eassumption).
   pose proof (iv_li hr c s1 HI1) as HL1.
   assert (Y3 : usize_ok (h_pax (meta_hdr h0))).
-  { unfold usize_ok. rewrite meta_hdr_usize. exact Hu. }
-  assert (Y4 : pax_get K_action (h_pax (meta_hdr h0)) = Some V_update) by (unfold meta_hdr, upd_pax; cbn [h_pax with_size_name set_pax]; paxs; reflexivity).
-  assert (Y5 : pax_get K_version (h_pax (meta_hdr h0)) = Some V_1) by (unfold meta_hdr, upd_pax; cbn [h_pax with_size_name set_pax]; paxs; reflexivity).
-  assert (Y6 : pax_get K_replaces_name (h_pax (meta_hdr h0)) = None) by (unfold meta_hdr, upd_pax; cbn [h_pax with_size_name set_pax]; paxs; reflexivity).
-  assert (Y7 : pax_get K_replaces_content (h_pax (meta_hdr h0)) = Some V_false) by (unfold meta_hdr, upd_pax; cbn [h_pax with_size_name set_pax]; paxs; reflexivity).
+  { unfold usize_ok. rewrite meta_hdr_usize. unfold usize_ok in Hu. destruct (pax_get K_usize (h_pax h0)) as [v|]; [exact Hu|].
+    destruct (0 <? h_size h0); [apply undecimal_decimal|exact I]. }
+  assert (Y4 : pax_get K_action (h_pax (meta_hdr h0)) = Some V_update) by (rewrite meta_hdr_get by reflexivity; unfold upd_pax; paxs; reflexivity).
+  assert (Y5 : pax_get K_version (h_pax (meta_hdr h0)) = Some V_1) by (rewrite meta_hdr_get by reflexivity; unfold upd_pax; paxs; reflexivity).
+  assert (Y6 : pax_get K_replaces_name (h_pax (meta_hdr h0)) = None) by (rewrite meta_hdr_get by reflexivity; unfold upd_pax; paxs; reflexivity).
+  assert (Y7 : pax_get K_replaces_content (h_pax (meta_hdr h0)) = Some V_false) by (unfold meta_hdr; cbn [h_pax with_size_name set_pax]; paxs; reflexivity).
   destruct (upd_hdr_ok hr (meta_hdr h0) _ G Hk Y3 Y4 Y5 Y6 eq_refl) as (X1 & X2 & X3 & X4).
   assert (Hlive : live_name (rows (db s)) (h_name h0) = true).
   { destruct (find_rows_some _ _ _ Hf) as (F1 & F2 & F3). unfold live_name. apply existsb_exists. exists d.
